@@ -71,8 +71,23 @@ def _others(seed, run, case):
                          'regs': regs, 'lookups': looks})
 
 
+def _related(seed, run, case):
+    """patterns registered for RELATED layer types in the same specification: a base class (nn.Module, _ConvNd) or a
+    user's sub-class of a convolution. With exact type matching they never apply to a Conv2d / Conv1d layer; a library
+    that also matches sub-classes must still let the layer's own type win, in every registration order."""
+    rr = Stream(seed, ID, run, 'related_types')
+    if case.get('systematic') or not rr.chance(0.2):
+        return
+    ops = case['ops']
+    for k in range(rr.randint(1, 2)):
+        pos = rr.randint(0, max(0, len(ops) - 1))
+        ops.insert(pos, {'op': 'reg_related', 'type': rr.choice(['Module', 'ConvNd', 'SubConv2d', 'SubConv1d']),
+                         'fid': 900 + k})
+
+
 def _styles(seed, run, case):
     _others(seed, run, case)
+    _related(seed, run, case)
     st = Stream(seed, ID, run, 'constraint_style')
     case['s2_style'] = st.wchoice([('function', 4), ('partial', 2), ('callable', 1.5), ('method', 1), ('lambda', 1.5)])
     if st.chance(0.2):
@@ -330,9 +345,27 @@ def execute(case):
     nontrivial = False
     steps = 0
     other_specs = {}
+    related = []          # (related type name, fid) registered on the specification under test
+
+    class SubConv2d(nn.Conv2d):
+        pass
+
+    class SubConv1d(nn.Conv1d):
+        pass
+    related_types = {'Module': nn.Module, 'ConvNd': nn.modules.conv._ConvNd, 'SubConv2d': SubConv2d,
+                     'SubConv1d': SubConv1d}
     for i, op in enumerate(case['ops']):
         steps += 1
         kind = op['op']
+        if kind == 'reg_related':
+            fn, val = mk_fn(op['fid'])
+            ident[id(fn)] = op['fid']
+            fns[op['fid']] = fn
+            cs[(related_types[op['type']], None)] = fn
+            related.append((op['type'], op['fid']))
+            bump('fault_pattern_registered_for_a_related_layer_type')
+            events.append(f"{i} reg related type {op['type']} -> fn{op['fid']}")
+            continue
         if kind == 'other_spec':
             # ANOTHER specification object of the same process (a second hardware target, an earlier experiment) is
             # filled and queried in between: the specification under test must not notice
@@ -396,7 +429,10 @@ def execute(case):
                 bump('lookups_under_noncanonical_order')
             events.append(f"{i} lookup {tname} dw={op['dw']} k3={op['k3']} s2={op['s2']} regs="
                           f"{[p for p, _ in registered[tname]]} -> {label} (ref {kindx})")
-            if label == 'KeyError':
+            if related and kindx == 'M0D':
+                # nothing of the layer's own type applies: whether a pattern of a base class does is outside the statement
+                bump('lookup_own_type_silent_related_type_registered_not_compared')
+            elif label == 'KeyError':
                 if not ke_ok:
                     fail('lookup raised although at most one constrained pattern matches',
                          f'lookup:{kindx}:KeyError',
@@ -416,6 +452,9 @@ def execute(case):
                 except KeyError:
                     if case['default'] != 'fail':
                         fail('default function misbehaves', 'lookup:default:raises', '')
+        elif kind == 'pit' and related:
+            # (the reference totals below assume exact type matching for layers no own pattern applies to)
+            bump('pit_construction_skipped_related_type_registered')
         elif kind == 'pit':
             layers = _net_layers(op['net'])
             torch.manual_seed(1234 + op['net'])
@@ -517,6 +556,9 @@ def execute(case):
             for vname in ('library', 'reverse'):
                 c2 = CostSpec(shared=True, default_behavior=case['default'])
                 ident2 = {id(c2.default): 'DEFAULT'}
+                if vname == 'library':
+                    for rt, rfid in related:            # related types first ...
+                        c2[(related_types[rt], None)] = fns[rfid]
                 for t in TYPES:
                     regs = list(registered[t])
                     regs.sort(key=lambda pf: (pf[0] != 'U', pf[1]))
@@ -524,6 +566,9 @@ def execute(case):
                         regs.reverse()
                     for p, fid in regs:
                         c2[(tmap[t], cmap[p])] = c2.default if fid in default_fids else fns[fid]
+                if vname == 'reverse':
+                    for rt, rfid in reversed(related):  # ... or last
+                        c2[(related_types[rt], None)] = fns[rfid]
                 variants[vname] = c2
             for t in TYPES:
                 if not registered[t]:
@@ -542,6 +587,8 @@ def execute(case):
                         except KeyError:
                             answers[vname] = 'KeyError'
                     bump('history_probes')
+                    if related and kindx == 'M0D':
+                        continue
                     if kindx == 'M2':
                         # two constrained patterns match: what is returned is unspecified (conflict error or one of
                         # the matching functions) but the statement still requires the same answer in every order
